@@ -278,20 +278,20 @@ def rewriteAttrs (e : Env) (attrs : List Attr) : Option Str :=
 
 /-! ## format_derive on one line -/
 
+/-- the length of the element list as `write_list` returns it (with its trailing comma) -/
+def deriveItemStrLen (paths : List Str) : Nat :=
+  if paths.isEmpty then 0 else (joinWith [',', ' '] paths).length + 1
+
 /-- `format_derive` when the elements fit on the line of `#[derive(`: `none` = `None`, `some none` = the nested
 layout (outside this model), `some (some s)` = the text.  `width` = `shape.width`. -/
 def formatDeriveOneLine (width : Nat) (inner : Bool) (paths : List Str) : Option (Option Str) :=
-  let p := attrPrefix inner
   -- `shape.offset_left_opt("[derive()]".len() + prefix.len())?.sub_width_opt("()]".len())?`
-  if width < 10 + p.length then none
-  else if width - (10 + p.length) < 3 then none
-  else
-    let budget := width - (10 + p.length) - 3
-    let items := joinWith [',', ' '] paths
-    -- the list is written with a trailing comma that is removed afterwards
-    let itemStr := if paths.isEmpty then [] else items ++ [',']
-    if paths.any (·.contains '\n') || itemStr.length > budget then some none
-    else some (some (p ++ "[derive(".toList ++ items ++ ")]".toList))
+  if width < 10 + (attrPrefix inner).length then none
+  else if width - (10 + (attrPrefix inner).length) < 3 then none
+  -- the list is written with a trailing comma that is removed afterwards
+  else if paths.any (·.contains '\n') ||
+      decide (deriveItemStrLen paths > width - (10 + (attrPrefix inner).length) - 3) then some none
+  else some (some (attrPrefix inner ++ "[derive(".toList ++ joinWith [',', ' '] paths ++ ")]".toList))
 
 /-! ## reading the result: what the oracles measure -/
 
